@@ -763,3 +763,15 @@ Fixpoint mrun (strict : bool) (items : list nitem) (st : mstate) (raws : list (l
     let '(st1, ok) := mstep strict items st raw in
     let '(st2, oks) := mrun strict items st1 rest in (st2, ok :: oks)
   end.
+
+(* successive key_lookup calls on ONE parser object, each on its own text: the object's registry grows, the results
+   are those of key_lookup on the arguments of each call (there is no other state that a lookup reads) *)
+Fixpoint lookup_seq (st : mstate) (calls : list (list Z * list Z * nat)) : mstate * list kl_result :=
+  match calls with
+  | [] => (st, [])
+  | (conf, key, sp) :: rest =>
+    let r := key_lookup (fuel_of conf) conf key sp in
+    let st' := {| ms_allowed := ms_allowed st ++ [to_lower key];
+                  ms_regs := ms_regs st ++ (match r with KL_found _ _ _ reg => [reg] | _ => [] end) |} in
+    let '(st2, rs) := lookup_seq st' rest in (st2, r :: rs)
+  end.
